@@ -1,7 +1,7 @@
 import AlgoVerif.Model.C05
 import AlgoVerif.Model.C05Binomial
 import AlgoVerif.Model.C05Fibonacci
-/-! Line-protocol component for C05 (keys `Int`, values `String`; `ord=min|max|mind|maxd7` picks the comparator). -/
+/-! Line-protocol component for C05 (keys `Int`, values `String`; `ord=min|max|mind|maxd7|half` picks the comparator). -/
 namespace AlgoVerif.C05.Driver
 open AlgoVerif AlgoVerif.C05
 
@@ -10,6 +10,8 @@ def cmpMax (a b : Int) : Int := if a > b then -1 else if a < b then 1 else 0
 /-- non-normalised comparators: only the sign may matter -/
 def cmpMinD (a b : Int) : Int := a - b
 def cmpMaxD7 (a b : Int) : Int := 7 * (b - a)
+/-- `2i` and `2i+1` compare equal (`Int` floor division) -/
+def cmpHalf (a b : Int) : Int := cmpMin (a / 2) (b / 2)
 def eqS (a b : String) : Bool := a == b
 
 def showRes : Res Int String → String
@@ -122,6 +124,7 @@ def runCase (hdr : List String) (ops : List String) : List String :=
     | some "max" => cmpMax
     | some "mind" => cmpMinD
     | some "maxd7" => cmpMaxD7
+    | some "half" => cmpHalf
     | _ => cmpMin
   match headerGet hdr "comp" with
   | some "ibinary" => runGeneric (IBinary.step cmp eqS) dumpBinary (IBinary.new cap) ops
